@@ -425,6 +425,32 @@ def r6_doc_sync(c, facts):
         c.ok(R, {'Workspace::close': 'docs.remove(loc): the next load reads the saved file'})
     else:
         c.bad(R, 'close-does-not-forget', 'Workspace::close no longer removes the document: the closed (unsaved) buffer keeps shadowing the file on disk')
+    # every per-document table of the workspace follows the document: what any method files under a locator (a text, a
+    # version, a line index, a parse) is dropped by didClose with the text - or it outlives the text it was derived from
+    ws = facts.adt('oal_client::lsp::Workspace')
+    perdoc = [f for f, ty in (ws['variants'][0]['fields'] if ws and ws.get('variants') else []) if re.search(r'(HashMap|BTreeMap|IndexMap)<[^,]*Locator,', ty)]
+    c.floor(R, 'per-document tables of Workspace', len(perdoc), 1)
+
+    def touches(fn, field, apis):
+        idx2 = MF.defs_index(fn)
+        for b, t in fn.calls():
+            info = callee_of(t)
+            a0 = t['args'][0] if t['args'] else None
+            if not info or not a0 or 'l' not in a0 or P.strip(info['def']).split('::')[-1] not in apis:
+                continue
+            for kind, bi, x in idx2.get(a0['l'], []):
+                if kind == 'assign' and x['rv']['r'] == 'ref' and MF.field_path(x['rv']['place'])[:1] == [field]:
+                    return True
+        return False
+    methods = [f for f in facts.fns.values() if f.mir and f.qname.startswith('oal_client::lsp::Workspace::')]
+    for fld in perdoc:
+        fillers = sorted(f.qname.split('::')[-1] for f in methods if touches(f, fld, ('insert', 'entry', 'or_insert', 'or_insert_with', 'extend', 'try_insert')))
+        dropped = any(touches(g, fld, ('remove', 'clear', 'retain', 'remove_entry')) for g in facts.family(cl))
+        inst = {'table': fld, 'filled by': fillers, 'dropped by close': dropped}
+        if fillers and not dropped:
+            c.bad(R, 'close-keeps-per-document-state:%s' % fld, 'Workspace.%s is filled per document (by %s) and not dropped by Workspace::close: what was derived from the closed buffer is applied to the text read from disk afterwards' % (fld, ', '.join(fillers)), **inst)
+        else:
+            c.ok(R, inst)
     # "diagnostics are reset on all previously opened documents" (comment of diagnostics()): the reset runs over `docs`, so
     # a document that leaves `docs` by didClose must get its empty list some other way
     closers = [f for f in facts.fns.values() if f.mir and f.crate in ('oal_lsp', 'oal_client') and f.id != cl.id and P.call_blocks(f, 'Workspace::close')]
@@ -483,6 +509,8 @@ def run(c, facts):
     import c11 as _c11
     import c16 as _c16
     c.run(lambda c: _c16.r10_monotone_column(c, facts, rule='C15.R10'))
+    # open, change, close and the requests must name a document by the same key, or a change is filed under a key nobody reads
+    c.run(lambda c: _c16.r11_doc_key(c, facts, rule='C15.R13'))
     R9 = c.rule('C15.R9', 'LOADER-TEXT: the server keeps, reads and parses the texts exactly as the client sent them and as they are on disk, so every client position refers to the text the server holds (shared with C11.R1)')
     c.run(lambda c: _c11.loader_text(c, facts, R9))
     import c18
